@@ -48,6 +48,17 @@
 (*        Min64(startTime, acc.StartTime) to addGrant: a grant that starts *)
 (*        later than the recipient's account is re-based onto the          *)
 (*        account's earlier start and unlocks early.                       *)
+(* Deviation present in the tree (F17), same treatment:                    *)
+(*   "aggregate_lock_pairs_grants"  Redeem attaches the redeemed coins as  *)
+(*        a grant that is fully vested at once (vesting <<0, x>>).  A      *)
+(*        clawback account locks  original vesting - min(unlocked, vested) *)
+(*        on the account TOTALS, so the x vested-but-locked coins pair     *)
+(*        with coins of the recipient that are unlocked but not yet        *)
+(*        vested: min(U, V + x) - min(U, V) > 0 at once although nothing   *)
+(*        of the redeemed schedule has been released.  The intended        *)
+(*        machine lets redeemed coins vest as they unlock (vesting = the   *)
+(*        redeemed lockup periods), which makes the clause hold for every  *)
+(*        recipient.                                                       *)
 (*                                                                         *)
 (* Ledger state (a record; the same shape is projected by                  *)
 (* harness/liquidvesting.go from the real stores):                         *)
@@ -66,7 +77,7 @@
 EXTENDS Schedule, Json
 
 CONSTANTS
-    InitAccts,   \* [name -> [kind, start, lockup, extra]]   initial accounts of the model
+    InitAccts,   \* [name -> [kind, start, lockup, vesting, extra]]   initial accounts (vesting <<>>: at once)
     MinLiq,      \* minimum liquidation amount parameter
     Amts,        \* amounts the model draws
     MaxT,        \* block times 0..MaxT
@@ -74,7 +85,7 @@ CONSTANTS
     MaxLen,      \* bound on the length of a behaviour
     SplitMaxP,   \* split input space: period lists with at most SplitMaxP periods ...
     SplitMaxAmt, \* ... and amounts 0..SplitMaxAmt
-    Defects      \* subset of {"merge_min_start"}
+    Defects      \* subset of {"merge_min_start", "aggregate_lock_pairs_grants"}
 
 ND == "aISLM"
 D  == {ND}
@@ -241,12 +252,26 @@ StepBroken(e, s, t) ==
 StepOK(e, s, t) == StepBroken(e, s, t) = {}
 
 \* the class of a step: what identifies a violation
+\* the recipient of a redeem is a vesting account whose vesting is not finished at the block time ...
+VestingUnfinished(R, now) == R.kind = "vesting" /\ BigLT(Read(D, AVest(R), now)[ND], R.ov)
+\* ... and from the block time on there is an instant at which more of it is unlocked than vested
+\* (coins that are unlocked but not yet vested: the situation in which the account-total rule
+\* locked = ov - min(unlocked, vested) can pair them with freshly vested, still locked coins)
+LockupAhead(R, now) ==
+    \E u \in {v \in Crit({ALock(R), AVest(R)}) \cup {now, now + 1} : v >= now} :
+        BigLT(Read(D, AVest(R), u)[ND], Read(D, ALock(R), u)[ND])
+RedeemIntoUnfinishedAhead(e, s) ==
+    /\ e.ev = "redeem" /\ e.args.to \in AcctsOf(s)
+    /\ VestingUnfinished(s.acct[e.args.to], e.args.t) /\ LockupAhead(s.acct[e.args.to], e.args.t)
+
 StepClass(e, s) ==
     CASE e.ev = "redeem" ->
            LET I == FindDenom(s, e.args.denom) IN
            IF e.args.to \notin AcctsOf(s) THEN "recipient=unknown"
            ELSE LET R == s.acct[e.args.to] IN
-                IF R.kind = "vesting"
+                IF VestingUnfinished(R, e.args.t)
+                THEN "recipient=vesting-unfinished," \o (IF LockupAhead(R, e.args.t) THEN "lockup-ahead" ELSE "lockup-not-ahead")
+                ELSE IF R.kind = "vesting"
                 THEN "recipient=existing-vesting," \o
                      (IF I = {} THEN "denom=unknown"
                       ELSE LET d == s.denoms[CHOOSE j \in I : TRUE] IN
@@ -379,15 +404,18 @@ MTransfer(s, args) ==
                            !.acct[args.to] = Touch(@)]]
 
 \* ApplyVestingSchedule(funder, to, coins = x, startTime = denom start, lockup = diff, vesting = <<0, x>>, merge)
+\* as built the redeemed coins are vested at once; the intended machine lets them vest as they unlock
+VGrant(diff, x) == IF "aggregate_lock_pairs_grants" \in Defects THEN <<P(0, x)>> ELSE diff
 MApply(R, dstart, diff, x) ==
     IF R.kind = "vesting"
     THEN LET gs == IF "merge_min_start" \in Defects THEN IMin(dstart, R.start) ELSE dstart
              L == MDisjunct(R.start, gs, R.lockup, diff)
-             V == MDisjunct(R.start, gs, R.vesting, <<P(0, x)>>)
+             V == MDisjunct(R.start, gs, R.vesting, VGrant(diff, x))
          IN [R EXCEPT !.start = L.start, !.end = IMax(L.end, V.end), !.lockup = L.periods,
                       !.vesting = V.periods, !.ov = BigAdd(R.ov, x)]
-    ELSE [R EXCEPT !.kind = "vesting", !.start = dstart, !.end = dstart + TotalLength(diff),
-                   !.lockup = diff, !.vesting = <<P(0, x)>>, !.ov = x]
+    ELSE [R EXCEPT !.kind = "vesting", !.start = dstart,
+                   !.end = dstart + IMax(TotalLength(diff), TotalLength(VGrant(diff, x))),
+                   !.lockup = diff, !.vesting = VGrant(diff, x), !.ov = x]
 
 MRedeem(s, args) ==
     LET from == args.from  to == args.to  x == args.amt  now == args.t
@@ -420,9 +448,10 @@ vars == <<st, hist, clk>>
 
 InitAcct(c) ==
     IF c.kind = "vesting"
-    THEN LET tot == PTotal(c.lockup) IN
-         [kind |-> "vesting", start |-> c.start, end |-> c.start + TotalLength(c.lockup), lockup |-> c.lockup,
-          vesting |-> <<P(0, tot)>>, ov |-> tot, bal |-> BigAdd(tot, c.extra)]
+    THEN LET tot == PTotal(c.lockup)
+             vp  == IF c.vesting = <<>> THEN <<P(0, tot)>> ELSE c.vesting IN
+         [kind |-> "vesting", start |-> c.start, end |-> c.start + IMax(TotalLength(c.lockup), TotalLength(vp)),
+          lockup |-> c.lockup, vesting |-> vp, ov |-> tot, bal |-> BigAdd(tot, c.extra)]
     ELSE [kind |-> c.kind, start |-> 0, end |-> 0, lockup |-> <<>>, vesting |-> <<>>, ov |-> "0", bal |-> c.extra]
 
 InitState == [mod |-> "0", denoms |-> <<>>, acct |-> [n \in DOMAIN InitAccts |-> InitAcct(InitAccts[n])],
@@ -458,15 +487,20 @@ Spec == Init /\ [][Next]_vars
 MInv_P  == BrokenInvariants(st) = {}
 MStep_P == [][hist' # hist => StepOK(Last(hist'), st, st')]_vars
 
-\* as built: P can be broken only by a redeem into an existing vesting account that starts before the
-\* liquid token, and only in the no-early-unlock clause
-KnownClass == "recipient=existing-vesting,accStart<denomStart"
+\* as built: P can be broken only in the no-early-unlock clause of a redeem, and only
+\*   merge_min_start              into a vesting account that starts before the liquid token
+\*   aggregate_lock_pairs_grants  into a vesting account whose vesting is unfinished and whose lockup
+\*                                is ahead of its vesting at some instant from the block time on
+KnownStep(e, s) ==
+    /\ e.ev = "redeem" /\ e.args.to \in AcctsOf(s) /\ FindDenom(s, e.args.denom) # {}
+    /\ LET R == s.acct[e.args.to]  d == s.denoms[CHOOSE j \in FindDenom(s, e.args.denom) : TRUE] IN
+       \/ "merge_min_start" \in Defects /\ R.kind = "vesting" /\ R.start < d.start
+       \/ "aggregate_lock_pairs_grants" \in Defects /\ RedeemIntoUnfinishedAhead(e, s)
 MStep_Compensated ==
     [][hist' # hist =>
           LET e == Last(hist') IN
           \/ StepOK(e, st, st')
-          \/ /\ "merge_min_start" \in Defects
-             /\ StepBroken(e, st, st') = {"redeem-unlocks-early"} /\ StepClass(e, st) = KnownClass]_vars
+          \/ StepBroken(e, st, st') = {"redeem-unlocks-early"} /\ KnownStep(e, st)]_vars
 MStep_Strict == MStep_P
 
 View == <<st, clk, Len(hist)>>
@@ -550,9 +584,10 @@ SimSpec == Init /\ [][SimNext \/ Emit]_vars
 ---------------------------------------------------------------------------
 (* model values for the configurations (cfg files cannot write tuples) *)
 
-VA(start, lockup, extra) == [kind |-> "vesting", start |-> start, lockup |-> lockup, extra |-> extra]
-PA(extra) == [kind |-> "plain", start |-> 0, lockup |-> <<>>, extra |-> extra]
-NA == [kind |-> "none", start |-> 0, lockup |-> <<>>, extra |-> "0"]
+VV(start, lockup, vesting, extra) == [kind |-> "vesting", start |-> start, lockup |-> lockup, vesting |-> vesting, extra |-> extra]
+VA(start, lockup, extra) == VV(start, lockup, <<>>, extra)
+PA(extra) == [kind |-> "plain", start |-> 0, lockup |-> <<>>, vesting |-> <<>>, extra |-> extra]
+NA == [kind |-> "none", start |-> 0, lockup |-> <<>>, vesting |-> <<>>, extra |-> "0"]
 
 \* a1 locked until 2 / 4, a2 starts later (3) and is locked until 6, a3 is a fresh address
 MC_AcctsA == [a1 |-> VA(0, <<P(2, "2"), P(2, "2")>>, "0"), a2 |-> VA(3, <<P(3, "2")>>, "1"), a3 |-> NA]
@@ -560,5 +595,14 @@ MC_AcctsA == [a1 |-> VA(0, <<P(2, "2"), P(2, "2")>>, "0"), a2 |-> VA(3, <<P(3, "
 MC_AcctsB == [a1 |-> VA(0, <<P(2, "1"), P(2, "1"), P(3, "1")>>, "1"), a2 |-> PA("2"), a3 |-> VA(1, <<P(6, "1")>>, "0")]
 \* simulation: longer schedules
 MC_AcctsS == [a1 |-> VA(0, <<P(2, "3"), P(2, "2"), P(3, "4")>>, "0"), a2 |-> VA(2, <<P(3, "2"), P(2, "3")>>, "2"), a3 |-> NA]
+\* recipients whose vesting is unfinished: a2 lockup ahead of vesting (unlocked at 1, vests at 4 and 7),
+\* a3 lockup behind vesting, both running (vests at 2 and 4, unlocks at 3 and 6)
+MC_AcctsC == [a1 |-> VA(0, <<P(2, "2"), P(3, "2")>>, "0"),
+              a2 |-> VV(0, <<P(1, "2")>>, <<P(4, "1"), P(3, "1")>>, "0"),
+              a3 |-> VV(1, <<P(2, "1"), P(3, "1")>>, <<P(1, "1"), P(2, "1")>>, "1")]
+\* simulation: lockup ahead (a2), both running and interleaved (a3)
+MC_AcctsU == [a1 |-> VA(0, <<P(2, "3"), P(3, "2"), P(4, "3")>>, "0"),
+              a2 |-> VV(0, <<P(1, "2"), P(2, "2")>>, <<P(5, "2"), P(5, "2")>>, "1"),
+              a3 |-> VV(1, <<P(3, "2"), P(4, "2")>>, <<P(1, "1"), P(4, "2"), P(5, "1")>>, "0")]
 MC_AcctsT == [a1 |-> VA(0, <<P(1, "1"), P(2, "3"), P(2, "1"), P(3, "2")>>, "1"), a2 |-> PA("3"), a3 |-> VA(4, <<P(3, "3")>>, "0")]
 =============================================================================
